@@ -21,7 +21,37 @@ def sig_c14(rec):
     return "route:" + str(case.get("locations"))[:200]
 
 
+def sig_resp(rec):
+    case = rec.get("case") or {}
+    if case.get("upstream_encoding") == "lz4" and case.get("valid_stream") and case.get("body_len", 0) >= 100:
+        return "lz4-ratio>10"
+    return "negotiate:%s|%s|%s|%s|%s|%s" % (case.get("upstream_encoding"), case.get("body_len"), case.get("profile"),
+                                         case.get("min_length"), case.get("filter"), case.get("path"))
+
+
+RESP_TRUST = [
+    "model coq/Model/Resp.v is hand-written from cache/http_response.go (NewHTTPResponse, shouldCompressed, GetRawBody, Compress, getBodyByAcceptEncoding, Fill) and Cacheable's pre-compress; tied by the negotiate family",
+    "third-party codecs (compress/gzip, andybalholm/brotli, pierrec/lz4, golang/snappy, klauspost zstd) and Go regexp are Section variables: hypotheses decoder(encoder x)=x and encoders never return an empty stream; the harness passes their observed answers as tables",
+    "Content-Length on the wire is net/http's doing (not modelled)",
+]
+
 PROPS = {
+    "C13": {
+        "families": {"negotiate": {"quick": 400, "thorough": 8000, "search": 3000,
+                                   "components": ["mismatch:C05", "mismatch:C13", "monitor:C05", "monitor:C13"]}},
+        "signature": sig_resp,
+        "trusted_base": RESP_TRUST,
+        "assumptions": ["Accept-Encoding is a plain list of codings (substring test = token membership on the standard tokens)"],
+        "explanation": "negotiate_table: get_body equals the documented table for all inputs; compress_once for responses as produced by NewHTTPResponse.",
+    },
+    "C05": {
+        "families": {"negotiate": {"quick": 400, "thorough": 8000, "search": 3000,
+                                   "components": ["mismatch:C05", "mismatch:C13", "monitor:C05", "monitor:C13"]}},
+        "signature": sig_resp,
+        "trusted_base": RESP_TRUST,
+        "assumptions": ["upstream data is a valid stream of its declared encoding and non-empty unless the body is empty"],
+        "explanation": "upstream answer -> consistent response -> (store) -> serve: decoded body, acceptable encoding, status and headers preserved, for all inputs and settings.",
+    },
     "C06": {
         "families": {"keys": {"quick": 120, "thorough": 2500, "search": 800}},
         "signature": lambda rec: "keys:" + str((rec.get("case") or {}).get("same_key", (rec.get("case") or {}).get("first_requests")))[:160],
